@@ -567,3 +567,56 @@ Fixpoint leaves (v : val) : list val :=
   | VStruct l => flat_map leaves l
   | s => [s]
   end.
+
+(* ---------- the entry points through which a conversion is reached ---------- *)
+
+(* EConvertFrom: conversion.ConvertFrom(&x, w) on the value itself.
+   EDecodeFrom:  conversion.DecodeFrom(d, &x, typ): the bytes of w : from (= typ) are decoded into a
+                 fresh intermediate value of type typ, which is then converted.  The wire round trip
+                 of the reflection encoder is property C03's; here the intermediate value *is* w,
+                 whatever was decoded before.
+   ECall2:       bus.Proxy.Call2: `from` is the type of the return signature advertised in the meta
+                 object, `to` the type of the caller's variable.  When both have the same signature
+                 text the reply is read directly into the caller's variable; otherwise it goes through
+                 DecodeFrom.  There is no third way: a reply that cannot be converted is refused. *)
+Inductive entry := EConvertFrom | EDecodeFrom | ECall2.
+
+(* Go's int and uint are 64-bit integers on the wire (signature "l" / "L") *)
+Definition wire_kind (k : ikind) : ikind :=
+  match k with IInt => I64 | UInt => U64 | k => k end.
+
+Definition ikind_eqb (a b : ikind) : bool :=
+  match a, b with
+  | I8, I8 | I16, I16 | I32, I32 | I64, I64 | IInt, IInt
+  | U8, U8 | U16, U16 | U32, U32 | U64, U64 | UInt, UInt => true
+  | _, _ => false
+  end.
+
+(* same_sigb t1 t2: the two Go types are written as the same signature (structs named by their
+   position in the text; member names are part of a signature) *)
+Fixpoint same_sigb (t1 t2 : gotype) {struct t1} : bool :=
+  match t1, t2 with
+  | TBool, TBool | TString, TString | TFloat32, TFloat32 | TFloat64, TFloat64 => true
+  | TInt k1, TInt k2 => ikind_eqb (wire_kind k1) (wire_kind k2)
+  | TSlice e1, TSlice e2 => same_sigb e1 e2
+  | TMap k1 e1, TMap k2 e2 => same_sigb k1 k2 && same_sigb e1 e2
+  | TStruct fs1, TStruct fs2 =>
+      (fix go (fs1 fs2 : list (string * gotype)) : bool :=
+         match fs1, fs2 with
+         | [], [] => true
+         | (n1, t1) :: r1, (n2, t2) :: r2 => String.eqb n1 n2 && same_sigb t1 t2 && go r1 r2
+         | _, _ => false
+         end) fs1 fs2
+  | _, _ => false
+  end.
+
+(* what the entry point leaves in x : to (old = None: freshly allocated; Some d: x held d) *)
+Definition enter (e : entry) (c : cfg) (from to : gotype) (w : val) (old : option dval) : cres val :=
+  let conv := match old with
+              | None => convert c from to w
+              | Some d => convert_onto c from to w d
+              end in
+  match e with
+  | ECall2 => if same_sigb from to then COk w else conv
+  | _ => conv
+  end.
